@@ -188,6 +188,70 @@ def run_unusual_peer(ck, w, seed):
             return
 
 
+def run_leading_zero(ck, w, seed):
+    """The Diffie-Hellman result g^ir of the IKE_SA_INIT exchange BEGINS WITH A ZERO OCTET (one MODP exchange in 256 does; here the independent responder
+    searches its private value until it does). RFC 7296 2.14 feeds g^ir into SKEYSEED as a string of the length of the modulus: the real initiator's
+    IKE_AUTH request must open under the reference's keys, and the CHILD_SA keys it installs are the RFC 7296 2.17 ones."""
+    from vf.ref import codec, groups, ikecrypto, party
+    from vf.checks import c02
+    rng = ck.rng('leading-zero', w)
+    group = (14, 15, 14, 16)[w % 4]
+    integ = (('sha256', 12), ('sha1', 2), ('sha512', 14))[w % 3]
+    kw = dict(ike_a={'encr': ['aes256'], 'integ': [integ[0]], 'prf': [integ[0]], 'dh': [str(group)]}, child_a={'encr': ['aes128'], 'integ': [integ[0]], 'dh': []})
+    sim, a, b = S.make_pair(seed + w, **kw)
+    sim.case = {'family': 'leading-zero-dh-secret', 'group': group, 'conf': kw}
+    sim.acquire(a, 0)
+    req = sim.net.pop(0).data
+    m = codec.decode(req, strict_bodies=False)
+    a_pub = next(x['data'] for x in m['payloads'] if x['type'] == codec.KE)
+    y = None
+    for tries in range(6000):
+        cand = rng.getrandbits(220) | 1
+        if groups.dh_shared(group, cand, a_pub)[0] == 0:
+            y = cand
+            break
+    if y is None:
+        ck.count('leading_zero.no_private_value_found')
+        return
+    p = party.RefParty(S.B4, S.A4, rng)
+
+    def fixed_dh(g_):
+        p.group, p.priv = g_, y
+        return groups.dh_public(g_, y)
+    p._new_dh = fixed_dh
+    sim.inject(a, S.B4, S.A4, p.respond_init(req))
+    ck.count('leading_zero.handshakes')
+    ck.nontrivial(('leading-zero', group, integ[0]))
+    if p.shared[0] != 0:
+        ck.count('leading_zero.harness_secret_not_as_planned')
+        return
+    areqs = [d.data for d in sim.net if d.dst == S.B4]
+    sim.net.clear()
+    if not areqs:
+        ck.violation('no-ike-auth-request-when-the-dh-secret-has-a-leading-zero-octet', {'group': group, 'states': [x.state.name for x in a.ctl.ike_sas]}, sim.case)
+        return
+    try:
+        p.open(areqs[0])
+    except ikecrypto.NotProtected:
+        ck.violation('ike-keys-differ-from-rfc7296-2.14-when-the-dh-secret-has-a-leading-zero-octet', {'group': group, 'secret_octets': len(p.shared)}, sim.case)
+        return
+    n0 = len(a.kernel.requests)
+    sim.inject(a, S.B4, S.A4, p.respond_auth(areqs[0], c02.ID_B[0], c02.ID_B[1], 2, p.auth_psk(c02.PSK_B, *c02.ID_B)))
+    new = [r for r in a.kernel.requests[n0:] if r['msg'] and r['msg']['name'] == 'NEWSA']
+    if len(new) != 2:
+        ck.violation('handshake-not-completed-when-the-dh-secret-has-a-leading-zero-octet', {'group': group, 'newsa': len(new)}, sim.case)
+        return
+    want = ikecrypto.child_keys(p.suite['prf'], p.keys['sk_d'], p.ni, p.nr, 16, integ[1])
+    for r in new:
+        outbound = r['msg']['sa']['saddr'] == S.A4
+        auth, crypt = r['msg']['attrs'].get(1), r['msg']['attrs'].get(2)
+        exp_a, exp_e = (want['sk_ai'], want['sk_ei']) if outbound else (want['sk_ar'], want['sk_er'])
+        if bytes(auth['key']) != exp_a or bytes(crypt['key']) != exp_e:
+            ck.violation('kernel-sa-keys-differ-from-rfc7296-2.17-when-the-dh-secret-has-a-leading-zero-octet', {'group': group}, sim.case)
+            return
+    ck.count('leading_zero.completed_with_rfc_keys')
+
+
 def run_refusal(ck, w, seed):
     """One NEWSA is refused by the kernel of one side during a negotiation: afterwards the two SADs still mirror each other (no SA that only one end holds)."""
     rng = ck.rng('refusal', w)
@@ -241,6 +305,9 @@ def run(ck):
     for w in range(48 if not ck.thorough() else 960):
         if ck.mine(w):
             run_refusal(ck, w, ck.seed * 1000003 + 8807)
+    for w in range(16 if not ck.thorough() else 160):
+        if ck.mine(w):
+            run_leading_zero(ck, w, ck.seed * 1000003 + 9911)
     nx = 160 if not ck.thorough() else 20000
     for w in range(nx):
         if ck.mine(w):
@@ -264,6 +331,7 @@ def run(ck):
 def verdict(ck):
     c = ck.counters
     t = ck.thorough()
+    ck.floor('handshakes whose Diffie-Hellman result has a leading zero octet, completed with the RFC keys', c['leading_zero.completed_with_rfc_keys'], 12)
     ck.floor('NEWSA requests checked against the reference derivation', c['keymon.newsa_seen'], 1500)
     ck.floor('mirror pairs compared', c['mirror.sa_pairs_compared'], 2000)
     ck.floor('IKE keyrings checked (initial)', c['keymon.keyring_checked.initial'], 100)
